@@ -264,7 +264,7 @@ fn main() {
         }
         let set: HashSet<BigDecimal> = xs.iter().cloned().collect();
         if set.len() != 1 {
-            run.report(Violation::new("HashSet<BigDecimal>", "no_collision", json!({"reference": "0e0", "member": "0e-5"}), "1 element", format!("{} elements", set.len())));
+            run.report(Violation::new("HashSet<BigDecimal>", "no_collision", json!({"reference": "0e0", "member": "0e-5", "family": xs.iter().map(|x| dec(x).show()).collect::<Vec<_>>()}), "1 element", format!("{} elements", set.len())));
         }
         run.sample(|| json!({"reference": "0e0", "member": "0e100000"}));
         t
